@@ -484,5 +484,5 @@ def rule_r4(ctx):
 
 
 def run(ctx):
-    rule_a6(ctx)
-    rule_r4(ctx)
+    ctx.guard(rule_a6)
+    ctx.guard(rule_r4)
